@@ -12,7 +12,7 @@ from math import pi, sqrt
 # Requires that the pyparsing module is installed.
 
 from pyparsing import (Literal, Optional, White, Regex,
-                       ZeroOrMore, OneOrMore, Forward, StringEnd, Group)
+                       ZeroOrMore, OneOrMore, Forward, StringEnd, Group, Empty)
 
 from .core import default_table, isatom, isisotope, ision, change_table
 from .constants import avogadro_number, electron_mass
@@ -883,7 +883,10 @@ def formula_grammar(table):
 
     mixture << (compound | grouped_mixture)
     formula = (compound | ungrouped_mixture | grouped_mixture)
-    grammar = Optional(formula, default=Formula()) + StringEnd()
+    # A blank string is the empty formula; build a new one for each parse rather
+    # than sharing one default object, which a caller could modify in place.
+    blank = Empty().setParseAction(lambda: Formula())
+    grammar = (formula | blank) + StringEnd()
 
     grammar.setName('Chemical Formula')
     return grammar
